@@ -72,6 +72,19 @@ impl Encode for ShapeEncoder {
     }
 }
 
+struct ShapeDeserializer {
+    events: Events,
+}
+#[derive(serde::Deserialize)]
+struct NoConfig {}
+impl log4rs::config::Deserialize for ShapeDeserializer {
+    type Trait = dyn Encode;
+    type Config = NoConfig;
+    fn deserialize(&self, _c: NoConfig, _: &log4rs::config::Deserializers) -> anyhow::Result<Box<dyn Encode>> {
+        Ok(Box::new(ShapeEncoder { events: self.events.clone() }))
+    }
+}
+
 fn scenario(rng: &mut Rng, append_mode: bool, events: &Events, problems: &mut Vec<Value>, run_no: usize) {
     let scratch = Scratch::new("file");
     let path: PathBuf = scratch.path().join("app.log");
@@ -80,9 +93,20 @@ fn scenario(rng: &mut Rng, append_mode: bool, events: &Events, problems: &mut Ve
     pre.extend(unit_bytes(0, 0));
     std::fs::write(&path, &pre).unwrap();
     events.lock().unwrap().push(json!({"e": "reset", "run": run_no}));
-    let appender = Arc::new(
-        FileAppender::builder().append(append_mode).encoder(Box::new(ShapeEncoder { events: events.clone() })).build(&path).unwrap(),
-    );
+    // every other scenario builds the appender from a configuration value (the `append` key is left out
+    // where the documented default - append - is wanted)
+    let appender: Arc<dyn Append> = if run_no % 2 == 1 {
+        let mut d = log4rs::config::Deserializers::default();
+        d.insert("shape", ShapeDeserializer { events: events.clone() });
+        let mut doc = json!({"path": path.to_string_lossy(), "encoder": {"kind": "shape"}});
+        if !append_mode {
+            doc["append"] = json!(false);
+        }
+        let v: serde_value::Value = serde_json::from_value(doc).unwrap();
+        Arc::from(d.deserialize::<dyn Append>("file", v).expect("file appender from configuration"))
+    } else {
+        Arc::new(FileAppender::builder().append(append_mode).encoder(Box::new(ShapeEncoder { events: events.clone() })).build(&path).unwrap())
+    };
     let nthreads = 1 + rng.below(3);
     let shapes: Vec<Vec<u64>> = vec![vec![], vec![0], vec![1], vec![3], vec![4], vec![5], vec![3, 3], vec![1, 4], vec![2, 2, 1], vec![4, 4], vec![1, 0, 3], vec![7]];
     let plans: Vec<Vec<Vec<u64>>> = (0..nthreads).map(|_| (0..1 + rng.below(3)).map(|_| rng.pick(&shapes).clone()).collect()).collect();
